@@ -8,7 +8,7 @@ import hashlib, json, os, shutil, subprocess, time
 
 from .common import *
 
-CFG = {"accounts": 12, "dids": 2, "validators": 2, "balance": 10000000, "vstorThreshold": 3000000}
+CFG = {"accounts": 12, "dids": 2, "validators": 2, "balance": 10000000, "vstorThreshold": 3000000, "fishmen": ["a03"]}
 
 FAIL_DELEGATE = {"kind": "Delegate", "creator": "a09", "val": "v1", "amount": 20000000}
 
@@ -31,7 +31,14 @@ def base_stream(ts):
         [E(kind="Binding", creator="a05", acc="a05", did="s1", status=1, n=ts)],  # fresh
         [E(kind="Renew", creator="a01", provider="a01", owner="d1", signer="d1", datas=["D1"], dur=3600, timeout=10),
          E(kind="Migrate", creator="a01", provider="a01", datas=["D1"])],
-        [E(kind="Claim", creator="a01"), E(kind="Claim", creator="a02"), E(kind="Undelegate", creator="a02", val="v1", amount=250000)],
+        # fault reports by the fishman a03 against whoever holds shards 0/1 (one message per accused provider), a recovery
+        # declaration, and a second store left in flight (pending timeout): state that must survive export/import
+        [E(kind="ReportFaults", creator="a03", provider=p, faults=[dict(data="D1", order=1, shard=sh, commit="c99", provider=p) for sh in (0, 1)])
+         for p in ("a01", "a02")]
+        + [E(kind="RecoverFaults", creator="a01", provider="a01", faults=[dict(data="D1", order=1, shard=sh, commit="D1", provider="a01") for sh in (0, 1)]),
+           E(kind="Claim", creator="a01"), E(kind="Claim", creator="a02"), E(kind="Undelegate", creator="a02", val="v1", amount=250000),
+           E(kind="Store", creator="a01", provider="a01", gw="a01", owner="d1", signer="d1", data="D2", commit="D2", op=1,
+             dur=3600, replica=1, timeout=50, size=5000, alias="y")],
     ]
 
 
@@ -53,6 +60,8 @@ def script_for(stream, sched, sleep_ms=0, states_from=None, export_at=None, expo
         steps.append({"op": "block", "txs": txs})
         if states_from is not None and i >= states_from:
             steps.append({"op": "state"})
+    if export_at is not None and export_at == len(stream):
+        steps.append({"op": "export", "to": export_to})
     steps.append({"op": "blocks", "n": 3})
     steps.append({"op": "state"})
     return steps
@@ -218,7 +227,7 @@ def replicas_run(binary, workdir, tier, seed):
         if r["op"] == "state" and h is not None:
             statesA[h] = r["state"]
     c18 = []
-    for gap in ([5, 9] if tier == "quick" else [3, 4, 5, 7, 8, 9]):
+    for gap in ([5, 10] if tier == "quick" else [3, 4, 5, 7, 8, 9, 10]):
         name = "X%d" % gap
         exp = os.path.join(workdir, name + ".genesis.json")
         steps = script_for(stream, [], states_from=gap, export_at=gap, export_to=exp)
